@@ -53,6 +53,7 @@ class LexModel:
         self.atoms = []
         self.bools = {}
         self.uses_continue = False
+        self.depth = 0
 
     # ------------------------------------------------------------ symbols
     def predicate_lang(self, pred, dcls):
@@ -186,6 +187,26 @@ class LexModel:
                     raise AnalysisError(f"lexer() calls lex_continue with {args}; LEX1 expects (char, next_char, lexeme, tok, preserve, g)")
                 self.uses_continue = True
                 return self.continue_language()
+            if isinstance(f, ast.Name) and f.id == "bool" and len(e.args) == 1 and not e.keywords:
+                return self.cond(e.args[0], sym)
+            # another helper of lexer.py that is handed the modelled variables: the language of its `return True`
+            if isinstance(f, ast.Name) and f.id in self.repo.module("lexer").functions and not e.keywords \
+                    and all(isinstance(a, ast.Name) and a.id in sym for a in e.args):
+                hfn = self.repo.module("lexer").functions[f.id]
+                hp = [a.arg for a in hfn.args.args]
+                if len(hp) == len(e.args) and self.depth < 6:
+                    hsym = {p_: sym[a.id] for p_, a in zip(hp, e.args)}
+                    out = {}
+                    saved, self.bools = self.bools, {}
+                    self.depth += 1
+                    try:
+                        self.walk(hfn.body, SIGMA, hsym, out)
+                    finally:
+                        self.depth -= 1
+                        self.bools = saved
+                    if "Y" in out or "C" in out:
+                        raise AnalysisError(f"LEX1: helper {f.id} yields or continues; not in the lexer-model vocabulary")
+                    return out.get("T", SL.EMPTY)
             # g.char_allowed(next_char)
             if isinstance(f, ast.Attribute) and f.attr == "char_allowed" and e.args and isinstance(e.args[0], ast.Name):
                 which = sym.get(e.args[0].id)
@@ -287,6 +308,8 @@ class LexModel:
         from . import lexrules
         fn, svar, loop, ivar, charvar = lexrules.main_loop(self.repo)
         sym = {charvar: "CHAR", svar: "TEXT"}
+        if ivar:
+            sym[ivar] = "INDEX"
         params = [a.arg for a in fn.args.args]
         if len(params) >= 3:
             sym[params[1]] = "G"
@@ -398,5 +421,9 @@ def check(repo, gcls, dcls):
             classes.append({"kind": kname, "between": [cn, dn], "witness": w, "tokens": [w[:j - 1], w[j - 1:]]})
             this = split & penultimate_in(cs) & last_in(ds)
             bad = bad - SL.concat(this, SIGMA)
-    return {"classes": classes, "continue_states": C.nstates(), "yield_states": Y.nstates(),
+    # look-ahead: a lexeme is ended (yielded) before a character outside the dialect's character set
+    bad_next = last_in(SL.ALLSYMS - m.allowed) & SL.length_gt(1)
+    in_set = SL.concat(SL.star(m.allowed) - SL.EPSILON, ANY1)          # the characters before the look-ahead passed the guard
+    la = ((bad_next & in_set) - inside) - Y
+    return {"lookahead_not_ended": la.witnesses(2), "classes": classes, "continue_states": C.nstates(), "yield_states": Y.nstates(),
             "atoms": sorted(set(m.atoms)), "default_token_decoder": m.default_dcls, "uses_lex_continue": uses}
